@@ -24,6 +24,12 @@ CLAIMED["C14"] = dict(
    note="Trusted: Fraction arithmetic/rounding exact (T-STD), string number parsers partial and uninterpreted (S9), f'{x:.3f}' within 0.0005 of x, A-FLOAT (floats are reals), the VC generator, z3/cvc5. pow/rpow are outside the statement.",
    technique="contract-based deductive verification (symbolic execution of the real AST + loop invariant + SMT) with one bounded stand-in",
    design_ref="6/C14")
+CLAIMED["C07"] = dict(
+   category="other",
+   text="Deductive proof (all inputs) that the four comparison operators of Note agree with (player, beat, column) order, that _iter_measure yields exactly one note per non-zero cell with the exact beat 4m + 4l/rows, column, type, player and keysound index (two nested loop invariants over prefix spec functions), that __iter__ concatenates sections and measures in order with their own indices, that str() returns the text, and of the arithmetic lemmas behind the strict order. Two bounded stand-ins, labelled and not counted as proved: _extract_keysound_indices against a declarative tokenizer, and the text-format lemma (split/strip/splitlines structure, column count, order) on generated decorated texts - hence level 'other'.",
+   note="Trusted: tuple comparison lexicographic, str.split/strip/splitlines uninterpreted, enum lookup by value, Fraction exact, the contract of _extract_keysound_indices (bounded only), well-formedness of rows as instantiated preconditions, generator laziness ignored, the VC generator, z3/cvc5.",
+   technique="contract-based deductive verification (symbolic execution of the real AST, nested loop invariants, SMT) with two bounded stand-ins",
+   design_ref="6/C07")
 NA_REASON = "not yet brought under contract in this session (work in progress; see DESIGN.md section 6 for the plan)"
 
 NA_TABLE = {}
